@@ -42,7 +42,12 @@ pub struct V5 {
     /// V5 Header
     pub header: Header,
     /// V5 Sets
-    #[nom(Count = "header.count")]
+    // Checked against the input first: nom's `count` reserves room for the announced
+    // number of records (up to 64 KiB) before it has seen a single one.
+    #[nom(
+        ErrorIf = "usize::from(header.count) * 48 > i.len()",
+        Count = "header.count"
+    )]
     pub flowsets: Vec<FlowSet>,
 }
 
